@@ -34,8 +34,10 @@ def strStep (st : StrSt) (toks : List String) : StrSt × String :=
     | some cap, some init =>
       let k := match kind with
         | "heap" => Kind.heap | "stack" => Kind.stack true | "stack0" => Kind.stack false | _ => Kind.arena
+      if (kind == "stack" || kind == "stack0") && init.length > cap then (st, "bad-op") else
       let s0 := if kind == "stack" || kind == "stack0" then
-          { length := 0, capacity := cap, data := List.replicate (cap + 1) 0, kind := k : Gpc.Str.Str }
+          -- `gp_str_on_stack(allocator, capacity, "literal")`: capacity + 1 bytes of storage, the literal in front
+          { length := init.length, capacity := cap, data := init ++ List.replicate (cap + 1 - init.length) 0, kind := k : Gpc.Str.Str }
         else Gpc.Str.new cap init k
       ({ s := s0 }, showStr s0)
     | _, _ => (st, "bad-op")
